@@ -68,6 +68,54 @@ def run(ctx, chk):
         chk.require("unsafe" in c.data, "C14-c/unsafe-facts", cname, "driver produced no unsafe-site list", "", nontrivial=False)
     nesting(ctx, chk)
     announced(chk, crates2, sc)
+    length_used(chk, crates2, sc)
+
+
+def length_used(chk, crates, sc):
+    """Where a decoder reads a length prefix itself, the announced length is what bounds the value: the length component of
+    every `L::deserialize(..)` result is used (compared, or taken as a slice bound).  A reader that takes only the
+    remainder (`let (_, data) = Tlv::deserialize(data)?`) and then decodes a width of its own choosing ignores the
+    announcement - shorter and longer elements are then read across their borders."""
+    n = 0
+    for bid, b in sorted(sc.items()):
+        calls = [(bb, t) for bb, t in b.calls() if callee(t) == "zvt_builder::length::Length::deserialize"]
+        if not calls:
+            continue
+        pr = make_prover(b, crates)
+        vx = pr.vx
+        exprs = []
+        for i in sorted(b.reachable(0)):
+            for st in b.blocks[i]["stmts"]:
+                if st["s"] == "assign":
+                    exprs.append(vx.rvalue(st["rv"], i))
+            t = b.blocks[i]["term"]
+            if t["t"] == "call":
+                exprs.extend(vx.operand(a, i) for a in t["args"])
+            elif t["t"] == "switch":
+                exprs.append(vx.operand(t["d"], i))
+            elif t["t"] == "assert":
+                exprs.extend(vx.operand(a, i) for a in t.get("ops", []))
+        for bb, t in calls:
+            style = ty_str((t["f"].get("a") or [{}])[0])
+            if style.startswith(("zvt_builder::length::Fixed", "zvt_builder::length::Empty")):
+                continue
+            n += 1
+            used = False
+            for e in exprs:
+                for x in walk(e):
+                    if x[0] == "proj" and x[1][0] == "call" and x[1][1] == "zvt_builder::length::Length::deserialize" and \
+                            len(x[1]) > 3 and x[1][3] == bb:
+                        f = tuple(y for y in x[2] if not str(y).startswith("@"))
+                        if f[:2] == ("0", "0") or f == ("0",) and False:
+                            used = True
+                    if used:
+                        break
+                if used:
+                    break
+            chk.require(used, "C14-e/length-used", "%s bb%d" % (rules_c02.short(bid), bb),
+                        "the length announced by the %s prefix is read and dropped: what follows is decoded with a width of the "
+                        "decoder's own choosing" % style.rsplit("::", 1)[-1], "length bounds the value", t.get("sp"))
+    chk.floor("length prefixes whose announced length is used", n, 2)
 
 
 def depends_on_len(pr, e, seen=None, depth=0):
